@@ -251,17 +251,20 @@ def r4_4(ctx: Ctx) -> RuleResult:
                 rr.bad(fn, h, f"handler class {ty_.split('.')[-1]} is not JSONPointerResolutionError or a superclass",
                        construct=f"except {short(h.type)}")
                 ok = False
-        rets = [n for s in h.body for n in ast.walk(s) if isinstance(n, ast.Return)]
-        if not rets or not all(isinstance(r.value, ast.Constant) and r.value.value is False for r in rets):
-            rr.bad(fn, h, "the handler must return False", construct="return False in handler")
+    # every way out: False through a handler, True otherwise (partial evaluation of the body)
+    from sa.peval import Explorer
+
+    ex = Explorer(ctx.folder, fn)
+    outs = ex.run({})
+    for (kind, node, value), env in zip(outs, ex.envs):
+        through = bool(env.get("$handlers"))
+        if through and not (kind == "return" and value is False):
+            rr.bad(fn, node or t, "the handler must return False", construct="return False in handler")
             ok = False
-    after = [s for s in fn.node.body if isinstance(s, ast.Return)] + [
-        n for s in t.orelse for n in ast.walk(s) if isinstance(n, ast.Return)
-    ] + [n for s in t.body for n in ast.walk(s) if isinstance(n, ast.Return)]
-    if not after or not all(isinstance(r.value, ast.Constant) and r.value.value is True for r in after):
-        rr.bad(fn, fn.node, "exists() must return True exactly when resolve() succeeds",
-               construct="return True after try")
-        ok = False
+        elif not through and not (kind == "return" and value is True):
+            rr.bad(fn, node or fn.node, "exists() must return True exactly when resolve() succeeds",
+                   construct="return True after try")
+            ok = False
     if not any(ctx.escapes.catches(ty_, ctx.repo.require_class("JSONPointerResolutionError").qualname)
                for h in t.handlers for ty_ in ctx.escapes._handler_types(fn, h)):
         rr.bad(fn, t, "no handler catches JSONPointerResolutionError", construct="except JSONPointerResolutionError")
